@@ -541,6 +541,7 @@ package limit
 //@   requires cfg: initialLimit <= 1000000000 && maxConurrency <= 1000000000 && minLimit <= 1000000000 && isFinite(smoothing) && 1 <= longWindow && longWindow < 1<<31 && ite(minLimit <= 0, 4, minLimit) <= ite(initialLimit <= 0, 4, initialLimit)
 //@   ghostset ret0.cap = max(float64(ret0.maxLimit), ret0.estimatedLimit)
 //@   ensures[C04] rejects_inverted_bounds: ite(minLimit <= 0, 4, minLimit) > ite(maxConurrency <= 0, 1000, maxConurrency) ==> ret0 == nil && ret1 != nil
+//@   ensures[C04] accepts: ite(minLimit <= 0, 4, minLimit) <= ite(maxConurrency <= 0, 1000, maxConurrency) ==> ret0 != nil && ret1 == nil
 //@   establishes[C04,C08] ret0 != nil ==> ret0
 //@   ensures[C04] initial: ret0 != nil ==> ret1 == nil && ret0.estimatedLimit == float64(ite(initialLimit <= 0, 4, initialLimit)) && ret0.maxLimit == ite(maxConurrency <= 0, 1000, maxConurrency) && ret0.minLimit == ite(minLimit <= 0, 4, minLimit) && len(ret0.listeners) == 0
 //@   safety[C04]
@@ -548,6 +549,7 @@ package limit
 //@ func NewWindowedLimit
 //@   requires cfg: minWindowTime <= 1<<61 && maxWindowTime <= 1<<61 && 1 <= minRTTThreshold
 //@   ensures[C09] rejects: (minWindowTime < 100000000 || maxWindowTime < 100000000 || windowSize < 10 || delegate == nil) ==> ret0 == nil && ret1 != nil
+//@   ensures[C09] accepts: !(minWindowTime < 100000000 || maxWindowTime < 100000000 || windowSize < 10 || delegate == nil) ==> ret0 != nil && ret1 == nil
 //@   establishes[C09] ret0 != nil ==> ret0
 //@   ensures[C09] fields: ret0 != nil ==> ret0.delegate == delegate && ret0.minWindowTime == minWindowTime && ret0.maxWindowTime == maxWindowTime && ret0.windowSize == windowSize && ret0.minRTTThreshold == minRTTThreshold && ret0.nextUpdateTime == 0 && ret0.sample.sampleCount == 0 && ret0.sample.didDrop == false
 
@@ -559,3 +561,30 @@ package limit
 //@ func NewSettableLimit
 //@   requires fits: limit <= MaxInt32
 //@   ensures[C16] fields: result != nil && int(result.limit) == ite(limit < 0, 10, limit) && len(result.listeners) == 0
+
+// ---------------------------------------------------------------------------------------------
+// Default-configuration wrappers: they establish the same invariants with the documented defaults.
+//@ func NewDefaultVegasLimit
+//@   establishes[C04,C08,C15] result
+//@   ensures[C04] defaults: result != nil && result.estimatedLimit == 20.0 && result.maxLimit == 1000 && result.probeCount == 0 && len(result.listeners) == 0
+//@ func NewDefaultVegasLimitWithLimit
+//@   requires cfg: initialLimit <= 1000000000
+//@   establishes[C04,C08,C15] result
+//@   ensures[C04] defaults: result != nil && result.estimatedLimit == float64(ite(initialLimit < 1, 20, initialLimit)) && result.maxLimit == 1000
+//@ func NewDefaultAIMDLimit
+//@   ensures[C04] inv_established: inv(result)
+//@   ensures[C04,C06] defaults: result.limit == 10 && result.backOffRatio == 0.9 && result.increaseBy == 1
+//@ func NewDefaultGradient2Limit
+//@   establishes[C04,C08] result != nil ==> result
+//@   ensures[C04] defaults: result != nil && result.estimatedLimit == 20.0 && result.maxLimit == 200 && result.minLimit == 20
+//@ func NewDefaultWindowedLimit
+//@   requires cfg: delegate != nil
+//@   establishes[C09] result != nil ==> result
+//@   ensures[C09] wraps: result != nil && result.delegate == delegate
+
+//@ func (*VegasLimit).RTTNoLoad
+//@   maintains l
+//@   ensures[C15] reports_baseline: result == int(vegasBase(l))
+//@   assigns nothing
+//@   safety[C04]
+//@   owns[C17]
